@@ -1027,6 +1027,43 @@ pub struct ServerPool {'''),
                                 }
                             }
                             Err(error) => {"""),
+    dict(id="c08-replay-looks-the-name-up", prop="C08", file="src/client.rs", expect="C08-R4",
+         what="the replay of a Bind consults the client's name map again (D54 again)",
+         old="""        // We send the parse message to the server ourselves,
+        // since pgcat is initiating the prepared statement on this specific server
+        match self""", new="""        if !self.prepared_statements.values().any(|(p, _)| p.name == parse.name) && self.prepared_statements.get(&parse.name).is_none() {
+            return Err(Error::ClientError(format!("prepared statement `{}` not found", parse.name)));
+        }
+        match self"""),
+    dict(id="c04-startup-without-deadline", prop="C04", file="src/pool.rs", expect="C04-R7",
+         what="the connection attempt is awaited without a deadline (D56 again)",
+         old="""        match tokio::time::timeout(
+            std::time::Duration::from_millis(self.connect_timeout),
+            startup,
+        )
+        .await
+        .unwrap_or_else(|_| {""", new="""        match Ok::<_, ()>(startup.await).unwrap_or_else(|_: ()| {"""),
+    dict(id="c11-single-deallocate-ignored", prop="C11", file="src/server.rs", expect="C11-R13",
+         what="the DEALLOCATE command tag is ignored again (D58 again)",
+         old="""                                "DEALLOCATE" => {
+                                    if self.prepared_statement_cache.is_some() {""", new="""                                "DEALLOCATE " => {
+                                    if self.prepared_statement_cache.is_some() {"""),
+    dict(id="c15-zero-shutdown-timeout-accepted", prop="C15", file="src/config.rs", expect="C15-V",
+         what="shutdown_timeout = 0 is accepted again (D59 again)",
+         old="""        if self.general.shutdown_timeout == 0 {""", new="""        if self.general.shutdown_timeout == 0 && self.general.port == 0 {"""),
+    dict(id="c15-general-plugins-not-validated", prop="C15", file="src/config.rs", expect="C15-V",
+         what="the general [plugins] section is not validated (half of D60 again)",
+         old="""        if let Some(ref plugins) = self.plugins {
+            plugins.validate()?;
+        }
+
+        // Validation for auth_query feature""", new="""        // Validation for auth_query feature"""),
+    dict(id="c16-rebuilt-pool-fresh-notify", prop="C16", file="src/pool.rs", expect="C16-R2",
+         what="a rebuilt pool gets a fresh Notify (half of D62 again)",
+         old="""                    paused_waiter: match old_pool_ref {
+                        Some(ref old_pool) => old_pool.paused_waiter.clone(),
+                        None => Arc::new(Notify::new()),
+                    },""", new="""                    paused_waiter: Arc::new(Notify::new()),"""),
     # ------------------------------------------------------------------ C17
     dict(id="c17-shutdown-checked-in-transaction", prop="C17", file="src/client.rs", expect="C17-R1",
          what="the transaction loop also reacts to the shutdown broadcast",
